@@ -1,6 +1,135 @@
-//! C15: implementation-side case runners (see props/c15.py). Stub until the property is built.
+//! C15: text-format writers and loaders through the public API (see props/c15.py).
+//!
+//! Formats are named by file extension: pcb | avt | msg (Ctrl-A) | an1 (Renegade) | asc | ata.
+//! Screen preparation: 0 None, 1 Home, 2 ClearScreen.
+//! A source buffer is `<w> <h> <row>*h`; a row is a hex string of 4 bytes per cell
+//! (ch, fg, bg, low byte of the attr flag word), `-` for an empty row.  The buffer is built as
+//! `Buffer::new((w, h))` + `layers[0].set_char` for the given cells; cells not given stay invisible.
+//!
+//!   wr <fmt> <prep> <lossless> <w> <h> rows..   -> bytes of Buffer::to_bytes
+//!   ld <fmt> <hex>                              -> raw loaded layer: [line_count, buffer height, layer height,
+//!                                                  layer width, then per line: len, (ch fg bg attr font_page)*len]
+//!   rt <fmt> <prep> <lossless> <w> <h> rows..   -> [file starts with EF BB BF, last 128 bytes start with "SAUCE",
+//!                                                  file length, line_count, width, (ch fg bg attr)* for y < line_count, x < width
+//!                                                  read with Buffer::get_char]; when lossless = 0 followed by
+//!                                                  [h, w, (ch fg bg attr)*] of ColorOptimizer::optimize(source)
+//!   cv <hex>                                    -> convert_ansi_to_utf8: [is_unicode, chars...]
+use crate::util::unhex;
 use crate::Obs;
+use icy_engine::{AttributedChar, Buffer, BufferType, ColorOptimizer, SaveOptions, ScreenPreperation, TextAttribute, TextPane};
+use std::path::PathBuf;
 
-pub fn run(_kind: &str, _args: &[&str]) -> Option<Obs> {
-    None
+fn build(fmt: &str, args: &[&str]) -> Buffer {
+    let w: i32 = args[0].parse().unwrap();
+    let h: i32 = args[1].parse().unwrap();
+    let mut buf = Buffer::new((w, h));
+    if fmt == "ata" {
+        buf.buffer_type = BufferType::Atascii;
+    }
+    for y in 0..h as usize {
+        let row = unhex(args[2 + y]);
+        for (x, c) in row.chunks(4).enumerate() {
+            let mut a = TextAttribute::new(c[1] as u32, c[2] as u32);
+            a.attr = c[3] as u16;
+            buf.layers[0].set_char((x as i32, y as i32), AttributedChar::new(c[0] as char, a));
+        }
+    }
+    buf
+}
+
+fn options(prep: &str, lossless: &str) -> SaveOptions {
+    let mut o = SaveOptions::new();
+    o.screen_preparation = match prep {
+        "0" => ScreenPreperation::None,
+        "1" => ScreenPreperation::Home,
+        "2" => ScreenPreperation::ClearScreen,
+        _ => panic!("bad screen preparation"),
+    };
+    o.lossles_output = lossless == "1";
+    o.save_sauce = false;
+    o
+}
+
+fn cell(v: &mut Vec<i64>, c: AttributedChar) {
+    v.push(c.ch as i64);
+    v.push(c.attribute.get_foreground() as i64);
+    v.push(c.attribute.get_background() as i64);
+    v.push(c.attribute.attr as i64);
+}
+
+pub fn run(kind: &str, args: &[&str]) -> Option<Obs> {
+    let mut v: Vec<i64> = Vec::new();
+    match kind {
+        "wr" => {
+            let buf = build(args[0], &args[3..]);
+            match buf.to_bytes(args[0], &options(args[1], args[2])) {
+                Ok(b) => v.extend(b.iter().map(|x| *x as i64)),
+                Err(e) => return Some(Err(format!("to_bytes:{e}"))),
+            }
+        }
+        "ld" => {
+            let data = unhex(args[1]);
+            let name = PathBuf::from(format!("t.{}", args[0]));
+            match Buffer::from_bytes(&name, true, &data) {
+                Ok(b) => {
+                    let l = &b.layers[0];
+                    v.push(b.get_line_count() as i64);
+                    v.push(b.get_height() as i64);
+                    v.push(l.get_height() as i64);
+                    v.push(l.get_width() as i64);
+                    for line in &l.lines {
+                        v.push(line.chars.len() as i64);
+                        for c in &line.chars {
+                            cell(&mut v, *c);
+                            v.push(c.attribute.get_font_page() as i64);
+                        }
+                    }
+                }
+                Err(e) => return Some(Err(format!("from_bytes:{e}"))),
+            }
+        }
+        "rt" => {
+            let buf = build(args[0], &args[3..]);
+            let opt = options(args[1], args[2]);
+            let bytes = match buf.to_bytes(args[0], &opt) {
+                Ok(b) => b,
+                Err(e) => return Some(Err(format!("to_bytes:{e}"))),
+            };
+            let name = PathBuf::from(format!("t.{}", args[0]));
+            let b = match Buffer::from_bytes(&name, true, &bytes) {
+                Ok(b) => b,
+                Err(e) => return Some(Err(format!("from_bytes:{e}"))),
+            };
+            v.push(bytes.starts_with(&[0xEF, 0xBB, 0xBF]) as i64);
+            v.push((bytes.len() >= 128 && &bytes[bytes.len() - 128..bytes.len() - 123] == b"SAUCE") as i64);
+            v.push(bytes.len() as i64);
+            let lc = b.get_line_count();
+            let w = b.get_width();
+            v.push(lc as i64);
+            v.push(w as i64);
+            for y in 0..lc {
+                for x in 0..w {
+                    cell(&mut v, b.get_char((x, y)));
+                }
+            }
+            if !opt.lossles_output {
+                let o = ColorOptimizer::new(&buf, &opt).optimize(&buf);
+                v.push(o.get_line_count() as i64);
+                v.push(o.get_width() as i64);
+                for y in 0..o.get_line_count() {
+                    for x in 0..o.get_width() {
+                        cell(&mut v, o.get_char((x, y)));
+                    }
+                }
+            }
+        }
+        "cv" => {
+            let data = unhex(args[0]);
+            let (s, u) = icy_engine::convert_ansi_to_utf8(&data);
+            v.push(u as i64);
+            v.extend(s.chars().map(|c| c as i64));
+        }
+        _ => return None,
+    }
+    Some(Ok(v))
 }
